@@ -9,21 +9,24 @@ RateGrid == {0, 1, 44100, 96000, 96001, 655350, 655351, 1048576 + 44100, P32 + 4
 BsGrid   == {0, 1, 16, 31, 32, 33, 4096, 32767, 32768, 65535, 65536 + 64, P32 + 64, Huge}
 FnumGrid == {0, 1, 127, 128, 2047, 2048, 65536, 2147483646, P32, P32 + 7, Huge}   \* 2147483646 = 2^31-1 here, P32 = 2^31
 
-StreamBase == [call |-> "stream", ch |-> 2, bps |-> 16, rate |-> 44100, bs |-> 64, excess |-> FALSE, bdel |-> 0]
+StreamBase == [call |-> "stream", ch |-> 2, bps |-> 16, rate |-> 44100, bs |-> 64, excess |-> FALSE, where |-> 0, bdel |-> 0]
 Singles(b, f, S) == { [b EXCEPT ![f] = v] : v \in S }
+\* the out-of-range sample at every position class
+WithExcess(b) == { [b EXCEPT !.excess = TRUE, !.where = w] : w \in 1..6 }
 StreamVecs ==
   LET one == Singles(StreamBase, "ch", ChGrid) \cup Singles(StreamBase, "bps", BpsGrid) \cup
              Singles(StreamBase, "rate", RateGrid) \cup Singles(StreamBase, "bs", BsGrid) \cup
-             Singles(StreamBase, "excess", {TRUE}) \cup Singles(StreamBase, "bdel", {1, 2, 3, 4})
+             WithExcess(StreamBase) \cup Singles(StreamBase, "bdel", {1, 2, 3, 4})
   IN one \cup UNION { Singles(s, "ch", {0, 1, 8, 9, 256 + 2}) \cup Singles(s, "bps", {8, 9, 24, 25, 256 + 16})
                       \cup Singles(s, "bs", {31, 32, 32767, 32768}) \cup Singles(s, "bdel", {0, 1, 2, 3})
-                      \cup Singles(s, "excess", {TRUE, FALSE}) : s \in one }
+                      \cup WithExcess(s) \cup {[s EXCEPT !.excess = FALSE, !.where = 0]} : s \in one }
 
-FrameBase == [call |-> "frame", ch |-> 2, bps |-> 16, bs |-> 64, fnum |-> 3, excess |-> FALSE]
+FrameBase == [call |-> "frame", ch |-> 2, bps |-> 16, bs |-> 64, fnum |-> 3, excess |-> FALSE, where |-> 0, partial |-> FALSE]
 FrameVecs ==
   LET one == Singles(FrameBase, "ch", ChGrid) \cup Singles(FrameBase, "bps", BpsGrid) \cup
              Singles(FrameBase, "bs", BsGrid) \cup Singles(FrameBase, "fnum", FnumGrid) \cup
-             Singles(FrameBase, "excess", {TRUE})
+             WithExcess(FrameBase) \cup Singles(FrameBase, "partial", {TRUE}) \cup
+             UNION { WithExcess(f) : f \in { [FrameBase EXCEPT !.partial = p, !.ch = c] : p \in BOOLEAN, c \in {1, 2, 3, 8} } }
   IN one \cup UNION { Singles(s, "fnum", {0, 2147483646, P32}) \cup Singles(s, "bps", {8, 24, 25}) \cup Singles(s, "ch", {1, 8}) : s \in one }
 
 BufVecs == { [call |-> "buf", ch |-> c, size |-> s] : c \in ChGrid, s \in BsGrid }
